@@ -37,6 +37,7 @@ CONSTANTS Elements, AtomTypes, AtomGeoms, BondTypes,   \* vocabularies, read fro
           MaxEdits,         \* edits of the built object (each followed by a new write/read cycle of the SAME object)
           EditBonds,        \* bond types an existing bond may be re-typed to
           AliasPick,        \* alias modes the model picks from (subset of AliasModes)
+          WithHistory,      \* BOOLEAN: the model also takes History / Reread steps
           EditPhases,       \* phases in which the model edits (the contract allows any phase >= 2: after a write)
           Deviations        \* named wrong behaviours of the model (non-vacuity; list of realistic bugs)
 
@@ -48,9 +49,11 @@ VARIABLES rec,      \* recipe under construction (model only)
           text2, back2,
           edits,    \* number of edits made to the object since it was built
           pend,     \* model only: the edit that was picked and is applied by the next step
+          again,    \* what a later read of the SAME first text returned (Nothing if it was not read again)
+          hist,     \* model only: unrelated calls of the public API happened in the process (see History)
           last
-vars == <<rec, phase, obj, text, back, text2, back2, edits, pend, last>>
-sv   == <<rec, phase, obj, text, back, text2, back2, edits, pend>>
+vars == <<rec, phase, obj, text, back, text2, back2, edits, pend, again, hist, last>>
+sv   == <<rec, phase, obj, text, back, text2, back2, edits, pend, again, hist>>
 
 Unit      == 10000000          \* 1 A in coordinate fraction units (1e-7 A)
 CoordTol  == 10                \* 1e-6 A  : the written precision of coordinates
@@ -102,7 +105,10 @@ Rejected == [out |-> "raise", el |-> "", at |-> "", g |-> ""]
 AcceptAtom(t) ==
   LET pre == t.pre  suf == t.suf
       el  == IF pre = "Du" THEN "Unknown" ELSE pre
-      A(at, g) == [out |-> "ok", el |-> el, at |-> at, g |-> g]
+      \* deviation ReaderMemoFromHistory: the reader replays, per token, the state of whatever atom the token was FIRST
+      \* interpreted on; fields the token does not set then carry that atom's earlier type (here: an aromatic one)
+      A(at, g) == [out |-> "ok", el |-> el, g |-> g,
+                   at |-> IF at = "Regular" /\ hist /\ "ReaderMemoFromHistory" \in Deviations THEN "Aromatic" ELSE at]
   IN IF pre # "Du" /\ pre \notin Elements THEN Rejected
      ELSE IF suf = "4"   THEN (IF el = "N" THEN A("N_Ammonium", "R4_Tetrahedral") ELSE Rejected)
      ELSE IF suf = "3"   THEN A("sp3", "Unknown")
@@ -159,35 +165,35 @@ New(k, n, na, nb, nc) ==
   /\ phase = 0 /\ rec.kind = "none"
   /\ rec' = [kind |-> k, name |-> n, atoms |-> <<>>, bonds |-> <<>>, nconf |-> 1, na |-> na, nb |-> nb, nc |-> nc,
              alias |-> NoAlias]
-  /\ UNCHANGED <<pend, edits, phase, obj, text, back, text2, back2>> /\ last' = [act |-> "new"]
+  /\ UNCHANGED <<hist, again, pend, edits, phase, obj, text, back, text2, back2>> /\ last' = [act |-> "new"]
 CanAddAtom == phase = 0 /\ rec.kind # "none" /\ Len(rec.atoms) < rec.na
 AddAtom(p) == /\ CanAddAtom
               /\ rec' = [rec EXCEPT !.atoms = Append(@, p)]
-              /\ UNCHANGED <<pend, edits, phase, obj, text, back, text2, back2>> /\ last' = [act |-> "addatom"]
+              /\ UNCHANGED <<hist, again, pend, edits, phase, obj, text, back, text2, back2>> /\ last' = [act |-> "addatom"]
 CanConnect == phase = 0 /\ rec.kind # "none" /\ Len(rec.atoms) = rec.na /\ Len(rec.bonds) < rec.nb
 Connect(i, j, bt) ==
   /\ CanConnect
   /\ i \in 1..Len(rec.atoms) /\ j \in 1..Len(rec.atoms) /\ i # j
   /\ \A k \in 1..Len(rec.bonds) : {rec.bonds[k].a, rec.bonds[k].b} # {i, j}      \* one bond per pair
   /\ rec' = [rec EXCEPT !.bonds = Append(@, [a |-> i, b |-> j, bt |-> bt])]       \* (i, j) in the order given to connect()
-  /\ UNCHANGED <<pend, edits, phase, obj, text, back, text2, back2>> /\ last' = [act |-> "connect"]
+  /\ UNCHANGED <<hist, again, pend, edits, phase, obj, text, back, text2, back2>> /\ last' = [act |-> "connect"]
 Sized == phase = 0 /\ rec.kind # "none" /\ Len(rec.atoms) = rec.na /\ Len(rec.bonds) = rec.nb
 AddConf == /\ Sized /\ rec.nconf < rec.nc
            /\ rec' = [rec EXCEPT !.nconf = @ + 1]
-           /\ UNCHANGED <<pend, edits, phase, obj, text, back, text2, back2>> /\ last' = [act |-> "addconf"]
+           /\ UNCHANGED <<hist, again, pend, edits, phase, obj, text, back, text2, back2>> /\ last' = [act |-> "addconf"]
 Build == /\ Sized /\ rec.nconf = rec.nc
          /\ phase' = 1 /\ obj' = ObjOf(rec)
-         /\ UNCHANGED <<pend, edits, rec, text, back, text2, back2>> /\ last' = [act |-> "build"]
+         /\ UNCHANGED <<hist, again, pend, edits, rec, text, back, text2, back2>> /\ last' = [act |-> "build"]
 
 (* ------------------------------------------------------------------------- *)
 (* The four calls.  Do*(x) only records the outcome x; the model instantiates *)
 (* x with WriteModel / ReadModel, the trace spec with what the code did.      *)
 (* ------------------------------------------------------------------------- *)
-DoBuild(o)  == phase = 0 /\ phase' = 1 /\ obj' = o   /\ UNCHANGED <<pend, edits, rec, text, back, text2, back2>> /\ last' = [act |-> "build"]
-DoWrite(t)  == phase = 1 /\ phase' = 2 /\ text' = t  /\ UNCHANGED <<pend, edits, rec, obj, back, text2, back2>>  /\ last' = [act |-> "write"]
-DoRead(b)   == phase = 2 /\ phase' = 3 /\ back' = b  /\ UNCHANGED <<pend, edits, rec, obj, text, text2, back2>>  /\ last' = [act |-> "read"]
-DoWrite2(t) == phase = 3 /\ phase' = 4 /\ text2' = t /\ UNCHANGED <<pend, edits, rec, obj, text, back, back2>>   /\ last' = [act |-> "write2"]
-DoRead2(b)  == phase = 4 /\ phase' = 5 /\ back2' = b /\ UNCHANGED <<pend, edits, rec, obj, text, back, text2>>   /\ last' = [act |-> "read2"]
+DoBuild(o)  == phase = 0 /\ phase' = 1 /\ obj' = o   /\ UNCHANGED <<hist, again, pend, edits, rec, text, back, text2, back2>> /\ last' = [act |-> "build"]
+DoWrite(t)  == phase = 1 /\ phase' = 2 /\ text' = t  /\ UNCHANGED <<hist, again, pend, edits, rec, obj, back, text2, back2>>  /\ last' = [act |-> "write"]
+DoRead(b)   == phase = 2 /\ phase' = 3 /\ back' = b  /\ again' = Nothing /\ UNCHANGED <<hist, pend, edits, rec, obj, text, text2, back2>>  /\ last' = [act |-> "read"]
+DoWrite2(t) == phase = 3 /\ phase' = 4 /\ text2' = t /\ UNCHANGED <<hist, again, pend, edits, rec, obj, text, back, back2>>   /\ last' = [act |-> "write2"]
+DoRead2(b)  == phase = 4 /\ phase' = 5 /\ back2' = b /\ UNCHANGED <<hist, again, pend, edits, rec, obj, text, back, text2>>   /\ last' = [act |-> "read2"]
 
 (* An edit of the built object through its public attributes (typically after it has been written once); the SAME *)
 (* object then goes through Write/Read again and the whole contract applies to the edited object.  An ALIAS is   *)
@@ -196,14 +202,14 @@ DoRead2(b)  == phase = 4 /\ phase' = 5 /\ back2' = b /\ UNCHANGED <<pend, edits,
 (* text must still denote it, whatever parent / index bookkeeping the atoms now carry.                           *)
 DoEdit(o) == /\ phase >= 1
              /\ phase' = 1 /\ obj' = o /\ edits' = edits + 1
-             /\ UNCHANGED <<pend, rec, text, back, text2, back2>> /\ last' = [act |-> "edit"]
+             /\ UNCHANGED <<hist, again, pend, rec, text, back, text2, back2>> /\ last' = [act |-> "edit"]
 (* model: an edit is picked (PickEdit: bond re-typed / atom re-typed and re-labelled / atom moved / renamed) and     *)
 (* applied by the next step (ApplyEdit), so that a random walk prints exactly the edit it takes                      *)
 NoPend == [d |-> [op |-> "none"], r |-> NoRec]
 CanEdit == /\ rec.kind # "none" /\ edits < MaxEdits /\ pend = NoPend
            /\ phase \in EditPhases \/ (phase = 1 /\ edits > 0)
 EditTo(r, d) == /\ r # rec /\ pend' = [d |-> d, r |-> r]
-                /\ UNCHANGED <<rec, phase, obj, text, back, text2, back2, edits>> /\ last' = [act |-> "pick"]
+                /\ UNCHANGED <<hist, again, rec, phase, obj, text, back, text2, back2, edits>> /\ last' = [act |-> "pick"]
 RetypeBond(i, bt) == EditTo([rec EXCEPT !.bonds[i].bt = bt], [op |-> "bond", i |-> i, bt |-> bt])          \* bond.btype = ...
 RetypeAtom(i, p)  == EditTo([rec EXCEPT !.atoms[i] = [p EXCEPT !.xi = rec.atoms[i].xi, !.qi = rec.atoms[i].qi]],
                             [op |-> "atom", i |-> i, el |-> p.el, at |-> p.at, g |-> p.g, lab |-> p.lab])   \* element, atype, geom, label
@@ -221,7 +227,18 @@ PickEdit == /\ CanEdit
                \/ \E m \in AliasPick, q \in AtomSeqs(Len(rec.atoms)) : AliasAtoms(m, q)
 ApplyEdit == /\ pend # NoPend
              /\ rec' = pend.r /\ obj' = ObjOf(pend.r) /\ phase' = 1 /\ edits' = edits + 1 /\ pend' = NoPend
-             /\ UNCHANGED <<text, back, text2, back2>> /\ last' = [act |-> "edit", op |-> pend.d]
+             /\ UNCHANGED <<hist, again, text, back, text2, back2>> /\ last' = [act |-> "edit", op |-> pend.d]
+
+(* HISTORY INDEPENDENCE.  What a read returns is a function of the text alone, and what a write emits a function  *)
+(* of the object alone: calls the public API allows on OTHER objects (set_mol2_type / get_mol2_type on atoms and  *)
+(* bonds that already carry a type, reading or writing other texts) are stuttering steps of this specification,   *)
+(* wherever they occur; the contract must hold as if they had not happened, and reading the same text once more   *)
+(* must return the same object (RereadSame).                                                                      *)
+DoReread(b) == /\ phase >= 3 /\ again' = b
+               /\ UNCHANGED <<hist, pend, edits, rec, phase, obj, text, back, text2, back2>> /\ last' = [act |-> "reread"]
+History == /\ WithHistory /\ ~hist /\ phase \in 1..4 /\ pend = NoPend
+           /\ hist' = TRUE                                    \* invisible to the contract: no other variable changes
+           /\ UNCHANGED <<again, pend, edits, rec, phase, obj, text, back, text2, back2>> /\ last' = [act |-> "history"]
 
 (* ----- reference model of dump_mol2 ---------------------------------------- *)
 RoundTo(n, m) == IF n >= 0 THEN ((n + m \div 2) \div m) * m ELSE -(((-n + m \div 2) \div m) * m)
@@ -287,8 +304,9 @@ Write  == pend = NoPend /\ DoWrite(WriteModel(obj.kind, obj.blocks, text, rec.al
 Read   == pend = NoPend /\ DoRead(ReadModel(obj.kind, text))
 Write2 == pend = NoPend /\ DoWrite2(IF back.out = "ok" THEN WriteModel(obj.kind, back.blocks, Nothing, NoAlias) ELSE Raised)   \* a new object
 Read2  == pend = NoPend /\ DoRead2(ReadModel(obj.kind, text2))
+Reread == WithHistory /\ pend = NoPend /\ phase = 3 /\ again.out = "none" /\ DoReread(ReadModel(obj.kind, text))
 
-Init == /\ edits = 0 /\ pend = NoPend /\ rec = NoRec /\ phase = 0 /\ obj = NoObj /\ text = Nothing /\ back = Nothing /\ text2 = Nothing /\ back2 = Nothing
+Init == /\ again = Nothing /\ hist = FALSE /\ edits = 0 /\ pend = NoPend /\ rec = NoRec /\ phase = 0 /\ obj = NoObj /\ text = Nothing /\ back = Nothing /\ text2 = Nothing /\ back2 = Nothing
         /\ last = [act |-> "init"]
 (* guards are hoisted out of the quantifiers: AtomPool may hold every element x type x geometry triple *)
 Next == \/ (phase = 0 /\ rec.kind = "none" /\
@@ -297,7 +315,7 @@ Next == \/ (phase = 0 /\ rec.kind = "none" /\
                    New(k, n, na, nb, nc))
         \/ (CanAddAtom /\ \E p \in AtomPool : AddAtom(p))
         \/ (CanConnect /\ \E i, j \in 1..Len(rec.atoms), bt \in BondPool : Connect(i, j, bt))
-        \/ AddConf \/ Build \/ Write \/ Read \/ Write2 \/ Read2 \/ PickEdit \/ ApplyEdit
+        \/ AddConf \/ Build \/ Write \/ Read \/ Write2 \/ Read2 \/ PickEdit \/ ApplyEdit \/ History \/ Reread
 Spec == Init /\ [][Next]_vars
 
 (* ------------------------------------------------------------------------- *)
@@ -334,7 +352,8 @@ BondsPreserved     == HaveBack => \A c \in Common(OB, RB) :
                               /\ OB[c].bonds[i].bt \in Expressible => RB[c].bonds[i].bt = OB[c].bonds[i].bt
 TextFixedPoint     == phase >= 4 => text2 = text                   \* Write(Read(Write(x))) = Write(x), token by token
 ReadStable         == phase >= 5 => back2 = back                   \* the second cycle changes nothing further
+RereadSame         == again.out # "none" => again = back           \* a read is a function of the text, not of the process history
 
 Contract == /\ WriteSucceeds /\ Accepted /\ ConformersPreserved /\ NamePreserved /\ AtomsPreserved /\ LabelsPreserved
-            /\ CoordsPreserved /\ ChargesPreserved /\ BondsPreserved /\ TextFixedPoint /\ ReadStable
+            /\ CoordsPreserved /\ ChargesPreserved /\ BondsPreserved /\ TextFixedPoint /\ ReadStable /\ RereadSame
 =============================================================================
